@@ -151,6 +151,17 @@ func transform(rel string, code []byte, mode string) ([]byte, error) {
 		if err := instrumentC(fset, f, rel); err != nil {
 			return nil, err
 		}
+	} else {
+		// mode B: when several communications of a polling select (one with a default clause) are ready at the same
+		// virtual instant, Go picks one pseudo-randomly - nondeterminism nobody owns. As in mode C the first ready case in
+		// source order is taken (met with seed C08-r6-1: a context deadline and the read timeout became ready together).
+		ci := &cinst{fset: fset, rel: rel, gen: map[ast.Stmt]bool{}}
+		ast.Inspect(f, func(n ast.Node) bool {
+			if sel, ok := n.(*ast.SelectStmt); ok && hasDefault(sel) && !ci.gen[sel] {
+				ci.prioritise(sel)
+			}
+			return true
+		})
 	}
 	var buf bytes.Buffer
 	if err := format.Node(&buf, fset, f); err != nil {
